@@ -83,17 +83,8 @@ func ruleC10(p *Prog, r *Res) {
 				continue
 			}
 			info := f.Pkg.TypesInfo
-			var stack []ast.Node
-			ast.Inspect(f.Body(), func(n ast.Node) bool {
-				if n == nil {
-					stack = stack[:len(stack)-1]
-					return false
-				}
-				if _, isLit := n.(*ast.FuncLit); isLit {
-					stack = append(stack, n)
-					return false
-				}
-				if se, ok := n.(*ast.SelectorExpr); ok && info.Uses[se.Sel] == types.Object(idxFld) {
+			inspectParents(f.Body(), func(n ast.Node, stack []ast.Node) bool {
+				if se, ok := n.(*ast.SelectorExpr); ok && info.Uses[se.Sel] == types.Object(idxFld) && len(stack) > 0 {
 					nbu++
 					par := stack[len(stack)-1]
 					okUse, why := false, fmt.Sprintf("used in %T", par)
@@ -130,7 +121,6 @@ func ruleC10(p *Prog, r *Res) {
 						r.Bad(ruleB, key, p.Pos(se), "Manager.indexes is stored, passed or returned ("+why+"): the holder would see later appends and splices, or the service would see the holder's writes")
 					}
 				}
-				stack = append(stack, n)
 				return true
 			})
 		}
